@@ -137,11 +137,12 @@ static int print_i(void (*printchar_handler)(void *d, int c),
     } while (u);
 
     len = (int)(end - str);
-    zero_count =
-        (len < min_len                                               ? min_len
-         : (ops & OPS_FLAG_ZERO_PAD) && !(ops & OPS_FLAG_LEFT_ALIGN) ? width
-                                                                     : 0) -
-        len - prefix_len;
+    /* the precision is a minimum number of digits, sign and prefix do not
+     * count; the 0 flag fills what sign, prefix and digits leave of the width */
+    zero_count = len < min_len ? min_len - len
+                 : (ops & OPS_FLAG_ZERO_PAD) && !(ops & OPS_FLAG_LEFT_ALIGN)
+                     ? width - len - prefix_len
+                     : 0;
     zero_count = MAX(zero_count, 0);
     /* alternate octal form: one more zero unless the first digit is a zero
      * already */
@@ -603,7 +604,7 @@ int __printf(void (*printchar_handler)(void *d, int c),
                           (size_t)tmp.vp,
                           0,
                           width,
-                          sizeof tmp.vp * 2 + 2,
+                          sizeof tmp.vp * 2,
                           ops | (OPS_FLAG_WITH_SPEC | OPS_FLAG_ZERO_PAD),
                           16);
             break;
